@@ -10,7 +10,8 @@ package c02
 // "The configured key set" of a verifier is the set passed with ITS option, or - as the options
 // document - the key set of the storage when the option is absent; "the allowed list" is the list
 // passed with ITS verifier option, or the library default. Every ordered subset of the four options
-// (65 configurations) is given to a real op.NewProvider; the storage publishes one key set, the
+// (65 configurations) is given to a real op.NewProvider (for the two accessor methods also to the wrapper
+// constructors NewOpenIDProvider, NewDynamicOpenIDProvider, NewForwardedOpenIDProvider); the storage publishes one key set, the
 // two custom sets hold other keys under the SAME kids, an attacker holds a fourth generation.
 // Tokens signed by a key of {storage set, custom access-token set, custom hint set, attacker} x
 // {ES256, RS256 (both in the default list), ES384 (only in the two custom lists)} x {kid, no kid}
@@ -34,6 +35,8 @@ import (
 	"sync/atomic"
 	"testing"
 
+	jose "github.com/go-jose/go-jose/v4"
+
 	"github.com/zitadel/oidc/v3/pkg/oidc"
 	"github.com/zitadel/oidc/v3/pkg/op"
 
@@ -52,6 +55,7 @@ var (
 		"userinfo/provider", "userinfo/legacy", "introspect/provider", "introspect/legacy", "revoke/provider", "revoke/legacy",
 		"endsession/provider", "endsession/legacy", "authorize/provider", "authorize/legacy",
 	}
+	poCtors    = []string{"NewProvider", "NewOpenIDProvider", "NewDynamicOpenIDProvider", "NewForwardedOpenIDProvider"}
 	poATList   = []string{"ES256", "ES384"}
 	poHintList = []string{"RS256", "ES384"}
 
@@ -123,45 +127,84 @@ type poWorker struct {
 	t       *testing.T
 	configs []string
 	rigs    map[string]*rig.Rig
+	provs   map[string]*op.Provider
 	sigMemo map[string]bool
+}
+
+func poStoreConfig() *refstore.Config {
+	cfg := rig.DefaultConfig()
+	cfg.Published = nil
+	for i, k := range poSet("st") {
+		cfg.Published = append(cfg.Published, &refstore.PubKey{KID: k.kid, Alg: jose.SignatureAlgorithm(poAlgs[i]), Usage: k.use, Pub: k.pub})
+	}
+	return cfg
+}
+
+func poOpts(config string) (opts []op.Option) {
+	if config == "none" {
+		return nil
+	}
+	for _, o := range strings.Split(config, ">") {
+		switch o {
+		case "atks": // an application-supplied oidc.KeySet
+			opts = append(opts, op.WithAccessTokenKeySet(staticSet{keys: joseKeys(poSet("at"))}))
+		case "hintks": // the library's own key set type over another key source
+			opts = append(opts, op.WithIDTokenHintKeySet(&op.OpenIDKeySet{Storage: &ksStorage{keys: opKeys(poSet("hint"))}}))
+		case "atopts":
+			opts = append(opts, op.WithAccessTokenVerifierOpts(op.WithSupportedAccessTokenSigningAlgorithms(poATList...)))
+		case "hintopts":
+			opts = append(opts, op.WithIDTokenHintVerifierOpts(op.WithSupportedIDTokenHintSigningAlgorithms(poHintList...)))
+		default:
+			panic(o)
+		}
+	}
+	return opts
 }
 
 func (w *poWorker) rigFor(config string) *rig.Rig {
 	if r, ok := w.rigs[config]; ok {
 		return r
 	}
-	cfg := rig.DefaultConfig()
-	cfg.Published = nil
-	for i, k := range poSet("st") {
-		cfg.Published = append(cfg.Published, &refstore.PubKey{KID: k.kid, Alg: joseAlg(poAlgs[i]), Usage: k.use, Pub: k.pub})
-	}
-	var opts []op.Option
-	if config != "none" {
-		for _, o := range strings.Split(config, ">") {
-			switch o {
-			case "atks": // an application-supplied oidc.KeySet
-				opts = append(opts, op.WithAccessTokenKeySet(staticSet{keys: joseKeys(poSet("at"))}))
-			case "hintks": // the library's own key set type over another key source
-				opts = append(opts, op.WithIDTokenHintKeySet(&op.OpenIDKeySet{Storage: &ksStorage{keys: opKeys(poSet("hint"))}}))
-			case "atopts":
-				opts = append(opts, op.WithAccessTokenVerifierOpts(op.WithSupportedAccessTokenSigningAlgorithms(poATList...)))
-			case "hintopts":
-				opts = append(opts, op.WithIDTokenHintVerifierOpts(op.WithSupportedIDTokenHintSigningAlgorithms(poHintList...)))
-			default:
-				panic(o)
-			}
-		}
-	}
-	r := rig.MustNew(rig.Opts{Cfg: cfg, Options: opts})
+	r := rig.MustNew(rig.Opts{Cfg: poStoreConfig(), Options: poOpts(config)})
 	w.rigs[config] = r
 	return r
+}
+
+// providerFor: the provider of a configuration built by one of the constructors (NewProvider: the rig's).
+func (w *poWorker) providerFor(ctor, config string) *op.Provider {
+	if ctor == "NewProvider" {
+		return w.rigFor(config).Provider
+	}
+	id := ctor + "|" + config
+	if p, ok := w.provs[id]; ok {
+		return p
+	}
+	st := refstore.New(refstore.NewCore(poStoreConfig()), refstore.CapAll)
+	opts := append([]op.Option{op.WithLogger(rig.Discard)}, poOpts(config)...)
+	var p *op.Provider
+	var err error
+	switch ctor {
+	case "NewOpenIDProvider":
+		p, err = op.NewOpenIDProvider(issuer, rig.DefaultOPConfig(), st, opts...)
+	case "NewDynamicOpenIDProvider":
+		p, err = op.NewDynamicOpenIDProvider("", rig.DefaultOPConfig(), st, opts...)
+	case "NewForwardedOpenIDProvider":
+		p, err = op.NewForwardedOpenIDProvider("", rig.DefaultOPConfig(), st, opts...)
+	default:
+		panic(ctor)
+	}
+	if err != nil {
+		panic(ctor + ": " + err.Error())
+	}
+	w.provs[id] = p
+	return p
 }
 
 func has(config, o string) bool { return strings.Contains(">"+config+">", ">"+o+">") }
 
 func (w *poWorker) run(v engine.Vec) engine.Result {
 	config, entry := w.configs[v[0]], poEntries[v[1]]
-	signer, alg, tkid := poSigners[v[2]], poAlgs[v[3]], poTkids[v[4]]
+	signer, alg, tkid, ctor := poSigners[v[2]], poAlgs[v[3]], poTkids[v[4]], poCtors[v[5]]
 	token := poTokens[poTokenID(signer, alg, tkid)]
 
 	// what this verifier was configured with
@@ -188,13 +231,14 @@ func (w *poWorker) run(v engine.Vec) engine.Result {
 	rule := []string{"access", "hint"}[comp] + ":" + vd.rule
 
 	r := w.rigFor(config)
+	prov := w.providerFor(ctor, config)
 	var accepted bool
 	var mark, class string
 	pan := engine.Bubble(w.t, clockOffset, func() {
 		ctx := op.ContextWithIssuer(context.Background(), issuer)
 		switch entry {
 		case "direct-access":
-			cl, err := op.VerifyAccessToken[*oidc.AccessTokenClaims](ctx, token, r.Provider.AccessTokenVerifier(ctx))
+			cl, err := op.VerifyAccessToken[*oidc.AccessTokenClaims](ctx, token, prov.AccessTokenVerifier(ctx))
 			if accepted = err == nil; accepted && cl != nil {
 				mark = cl.Subject
 			} else if !accepted {
@@ -202,7 +246,7 @@ func (w *poWorker) run(v engine.Vec) engine.Result {
 			}
 			return
 		case "direct-hint":
-			cl, err := op.VerifyIDTokenHint[*oidc.IDTokenClaims](ctx, token, r.Provider.IDTokenHintVerifier(ctx))
+			cl, err := op.VerifyIDTokenHint[*oidc.IDTokenClaims](ctx, token, prov.IDTokenHintVerifier(ctx))
 			if accepted = err == nil; accepted && cl != nil {
 				mark = cl.Subject
 			} else if !accepted {
@@ -264,26 +308,15 @@ func (w *poWorker) run(v engine.Vec) engine.Result {
 		return engine.OK(rule, "panic")
 	}
 	desc := func() string {
-		return fmt.Sprintf("NewProvider options [%s]: %s, token signed by a key of the %q set with %s (%s); this verifier was configured with the %q set and list %v",
+		return fmt.Sprintf(ctor+" options [%s]: %s, token signed by a key of the %q set with %s (%s); this verifier was configured with the %q set and list %v",
 			config, entry, signer, alg, tkid, setName, list)
-	}
-	// signature class of the configuration: which options are present (not their order)
-	var present []string
-	for _, o := range poOptions {
-		if has(config, o) {
-			present = append(present, o)
-		}
-	}
-	cfgClass := strings.Join(present, "+")
-	if cfgClass == "" {
-		cfgClass = "none"
 	}
 	comps := []string{"access-token-verifier", "id-token-hint-verifier"}[comp]
 	switch {
 	case vd.want == mustReject && accepted:
-		return engine.Bad(rule, "accepted", "C02/provider-option/"+comps+"/accepted-outside-configured-set-or-list/"+cfgClass, desc()+": accepted")
+		return engine.Bad(rule, "accepted", "C02/provider-option/"+comps+"/accepted-outside-configured-set-or-list", desc()+": accepted")
 	case vd.want == mustAccept && !accepted:
-		return engine.Bad(rule, class, "C02/provider-option/"+comps+"/rejected-token-of-configured-set/"+cfgClass, desc()+": "+class)
+		return engine.Bad(rule, class, "C02/provider-option/"+comps+"/rejected-token-of-configured-set", desc()+": "+class)
 	case accepted && mark != "u-"+signer:
 		return engine.Bad(rule, "accepted-other-claims", "C02/claims-not-the-signed-payload/provopts/"+comps, desc()+fmt.Sprintf(": subject handed on is %q", mark))
 	}
@@ -302,11 +335,15 @@ func provoptsPart(c *engine.Check, t *testing.T) {
 		engine.D("signer", poSigners...),
 		engine.D("alg", poAlgs...),
 		engine.D("tkid", poTkids...),
+		engine.D("ctor", poCtors...),
 	}
 	c.RunE1(engine.E1{
 		Part: "provopts", Space: sp, K: len(sp),
+		Skip: func(v engine.Vec) bool { // the wrapper constructors are exercised through the two accessor methods only
+			return v[5] != 0 && !strings.HasPrefix(poEntries[v[1]], "direct-")
+		},
 		NewWorker: func(int) func(engine.Vec) engine.Result {
-			w := &poWorker{t: t, configs: configs, rigs: map[string]*rig.Rig{}, sigMemo: map[string]bool{}}
+			w := &poWorker{t: t, configs: configs, rigs: map[string]*rig.Rig{}, provs: map[string]*op.Provider{}, sigMemo: map[string]bool{}}
 			return w.run
 		},
 	})
